@@ -591,6 +591,8 @@ func merge(c *mergeCtx, d reflect.Value, it *item) {
 			cur := reflect.New(t.Elem()).Elem()
 			if !c.sliceReset {
 				cur.Set(deepCopy(d.Index(i)))
+			} else if t.Elem().Kind() == reflect.Interface && !d.Index(i).IsNil() && it.arr[i].kind != "nil" {
+				c.ifaceElemKept = true // [N]interface{} goes through the same generated fast path (F19-2)
 			}
 			merge(c, cur, it.arr[i])
 			if c.err {
